@@ -750,7 +750,7 @@ pub fn run(tier: Tier, replay_path: Option<&str>) {
         coverage,
         vec![
             "chip behaviour is the datasheet model of chips.rs (SX1262 with DC-DC + TCXO board, SX1276): command/register decode, operating mode, BUSY high while asleep, configuration lost by cold sleep and reset, interrupt flags, operations in flight until the driver waits for the interrupt line".into(),
-            "the sleep phase of SX126x RX duty cycle is not modelled (the chip counts as receiving)".into(),
+            "SX126x RX duty cycle: until a GetStatus has woken it the chip may be in the sleep phase of the cycle; a state-changing command sent first is reported as lost, reads and ClearIrqStatus are let through".into(),
             "tx/cad are never dropped (documented as not safe to drop); a reception may be abandoned while it waits for the interrupt line".into(),
             "fixed modulation (SF7/125 kHz/4_5, 868.1 MHz), 12-byte payload".into(),
         ],
